@@ -179,6 +179,8 @@ def make_func(ctx: Ctx, spec: dict, flavour: str):
         if kind == "func":
             if nout == 0:
                 return None
+            if "ret" in spec:  # a constant, typically falsy, result (None, 0, False, "", ()) for a single-output node
+                return T(spec["ret"])
             body = crc(a) if ctx.compact else a
             if nout == 1:
                 return (fid, 0, body)
@@ -330,7 +332,22 @@ def apply_renames(node, spec):
             node = node.with_outputs(dict(step["map"]))
         elif step["kind"] == "name":
             node = node.with_name(step["name"])
+        elif step["kind"] == "warm":
+            warm(node)
     return node
+
+
+def warm(node):
+    """Touch what a user inspecting a node would read, so every lazily cached attribute is populated before the next
+    derivation (a clone must not inherit a stale cache)."""
+    for attr in ("defaults", "parameter_annotations", "definition_hash", "inputs", "outputs", "data_outputs", "wait_for"):
+        try:
+            getattr(node, attr, None)
+        except Exception:  # noqa: BLE001 - inspection only
+            pass
+    for p in tuple(node.inputs):
+        node.has_default_for(p)
+        node.get_input_type(p)
 
 
 def make_graph(ctx: Ctx, gspec: dict, flavour: str = "sync"):
